@@ -1,9 +1,14 @@
 package main
 
 import (
+	"bufio"
+	"encoding/json"
 	"fmt"
 	"os"
+	"os/exec"
+	"path/filepath"
 	"sort"
+	"strings"
 	"time"
 
 	"github.com/sarchlab/akita/v4/simulation"
@@ -150,7 +155,104 @@ func (r *runner) benchRun(ce *caseEnv, idx int, timing bool, paths map[int][]str
 	return true, outPaths
 }
 
-func (r *runner) runBench(ce *caseEnv, idx int) {
+func (r *runner) runBenchHere(ce *caseEnv, idx int) {
+	fmt.Println("MODE emu")
 	ok, paths := r.benchRun(ce, idx, false, nil, false)
+	fmt.Println("MODE timing")
 	r.benchRun(ce, idx, true, paths, ok)
+}
+
+// runBench runs the benchmark in a child process: the simulation runs in the driver's engine goroutine
+// there, so a panic of the simulator cannot be recovered; the child's death is then logged as the
+// Panic event of the run it was in.
+func (r *runner) runBench(ce *caseEnv, idx int) {
+	if r.child {
+		r.runBenchHere(ce, idx)
+		return
+	}
+	dir, err := os.MkdirTemp("", "c14bench")
+	if err != nil {
+		panic(err)
+	}
+	defer os.RemoveAll(dir)
+	sf, tf := filepath.Join(dir, "scen.json"), filepath.Join(dir, "trace.ndjson")
+	js, _ := json.Marshal([]*Scenario{ce.sc})
+	if err := os.WriteFile(sf, js, 0o644); err != nil {
+		panic(err)
+	}
+	self, err := os.Executable()
+	if err != nil {
+		panic(err)
+	}
+	cmd := exec.Command(self, "-child", "-case", fmt.Sprint(idx), "-scen", sf, "-out", tf)
+	cmd.Dir = dir
+	out, runErr := cmd.CombinedOutput()
+	if code := cmd.ProcessState.ExitCode(); code == 3 {
+		fmt.Print(string(out))
+		os.Exit(3)
+	}
+	mode, msg := "emu", ""
+	for _, l := range strings.Split(string(out), "\n") {
+		if strings.HasPrefix(l, "MODE ") {
+			mode = strings.TrimPrefix(l, "MODE ")
+		}
+		if i := strings.Index(strings.ToLower(l), "panic:"); msg == "" && i >= 0 {
+			msg = strings.TrimSpace(l[i:])
+		}
+		if msg == "" && strings.HasPrefix(l, "fatal error:") {
+			msg = l
+		}
+	}
+	if runErr != nil {
+		// the trace the child wrote is lost with its buffer: what is known is that the real code panicked in this run
+		if msg == "" {
+			fmt.Println("INFRA: benchmark child process failed without a Go panic:", runErr, string(out[max(0, len(out)-600):]))
+			os.Exit(3)
+		}
+		if mode == "timing" {
+			r.st.Panics++
+		} else {
+			r.st.EmuPanics++
+		}
+		r.emit("Reset", ab.Rec{"mode": mode, "case": idx, "name": ce.sc.Name, "level": "bench"})
+		r.emit("Panic", ab.Rec{"mode": mode, "msg": msg})
+		return
+	}
+	f, err := os.Open(tf)
+	if err != nil {
+		panic(err)
+	}
+	defer f.Close()
+	scan := bufio.NewScanner(f)
+	scan.Buffer(make([]byte, 1<<20), 1<<26)
+	for scan.Scan() {
+		rec := ab.Rec{}
+		if err := json.Unmarshal(scan.Bytes(), &rec); err != nil {
+			panic(err)
+		}
+		e, _ := rec["e"].(string)
+		delete(rec, "e")
+		delete(rec, "seq")
+		switch e {
+		case "Issue":
+			r.st.Insts++
+			switch rec["k"] {
+			case "bar":
+				if rec["ov"] != nil {
+					r.st.Barriers++
+				}
+			case "wait":
+				if rec["ov"] != nil {
+					r.st.Waits++
+				}
+			case "vmem", "smem":
+				if rec["ov"] != nil {
+					r.st.MemOps++
+				}
+			}
+		case "MapWG":
+			r.st.WGs++
+		}
+		r.emit(e, rec)
+	}
 }
